@@ -177,7 +177,7 @@ def merge_and_report(pid, tier, seed, meta, results, problems, t0, evidence_path
         for v in new_viol:
             for n, c in enumerate(v["cases"][:2]):
                 path = os.path.join(rdir, f"{_san(v['key'])}-{n}.json")
-                json.dump({"property": pid, "key": v["key"], "tier": tier, "seed": seed, "case": c["case"], "what": c["what"],
+                json.dump({"property": pid, "key": v["key"], "tier": tier, "seed": seed, "case": c["case"], "shard": c.get("shard"), "what": c["what"],
                            "observed": c["observed"], "expected": c["expected"], "repo_head": _repo_head()}, open(path, "w"), indent=1)
                 if n == 0:
                     replay_paths.append((v, path))
@@ -249,7 +249,9 @@ def main(argv=None) -> int:
     t0 = time.time()
     if a.replay:
         rp = json.load(open(a.replay))
-        shards = [{"name": "replay", "case": rp["case"], "key": rp.get("key")}]
+        # the original shard description (incl. its name, which seeds the worker's PRNG) is restored so that modules whose
+        # replay re-runs the shard regenerate exactly the same cases
+        shards = [dict(rp.get("shard") or {"name": "replay"}, case=rp["case"], key=rp.get("key"))]
         _, meta = plan(pid, rp.get("tier", "quick"), rp.get("seed", 0))
         results, problems = run_workers(pid, rp.get("tier", "quick"), rp.get("seed", 0), shards, 1, 3600, replay=True)
         meta = dict(meta, min_nt={}, required_counters={})
